@@ -12,43 +12,46 @@ import (
 	"golang.org/x/net/html"
 )
 
-func nondetString(tag string) string               { panic("symbolic only") }
-func nondetBool(tag string) bool                   { panic("symbolic only") }
-func nondetInt(tag string) int                     { panic("symbolic only") }
-func nondetIntRange(tag string, lo, hi int) int    { panic("symbolic only") }
-func nondetRegexp(tag string) *regexp.Regexp       { panic("symbolic only") }
-func nondetPred(tag string) func(string) bool      { panic("symbolic only") }
-func nondetURLPred(tag string) func(*url.URL) bool { panic("symbolic only") }
-func nondetRewriter(tag string) func(*url.URL)     { panic("symbolic only") }
-func nondetError(tag string) error                 { panic("symbolic only") }
-func verifAssume(c bool)                           { panic("symbolic only") }
-func verifAssert(c bool, id string)                { panic("symbolic only") }
-func verifReach(id string)                         { panic("symbolic only") }
-func verifCut(why string)                          { panic("symbolic only") }
-func verifFreeze()                                 { panic("symbolic only") }
-func verifEffects() int                            { panic("symbolic only") }
-func verifNote(key string, v string)               { panic("symbolic only") }
-func verifNoteBool(key string, v bool)             { panic("symbolic only") }
-func verifNoteInt(key string, v int)               { panic("symbolic only") }
-func verifMatch(pattern string, s string) bool     { panic("symbolic only") }
-func verifHasToken(v string, tok string) bool      { panic("symbolic only") }
-func verifLower(s string) string                   { panic("symbolic only") }
-func verifURLOk(raw string) bool                   { panic("symbolic only") }
-func verifURLScheme(raw string) string             { panic("symbolic only") }
-func verifURLHost(raw string) string               { panic("symbolic only") }
-func verifURLNorm(raw string) string               { panic("symbolic only") }
-func verifProvenance(s string) (html.Token, bool)  { panic("symbolic only") }
-func verifWrite(s string)                          { panic("symbolic only") }
-func verifWriteFailed(s string)                    { panic("symbolic only") }
-func verifOr(a, b bool) bool                       { panic("symbolic only") }
-func verifAnd(a, b bool) bool                      { panic("symbolic only") }
-func verifImplies(a, b bool) bool                  { panic("symbolic only") }
-func verifCurrentToken() html.Token                { panic("symbolic only") }
-func verifNot(a bool) bool                         { panic("symbolic only") }
-func verifMatchPrefix(s, prefix string) bool       { panic("symbolic only") }
-func verifAppended(s, prefix, piece string) bool   { panic("symbolic only") }
-func verifParam(tag string) int                    { panic("symbolic only") }
-func verifNoteURL(raw, out string, ok bool)        { panic("symbolic only") }
-func verifURLStubCount() int                       { panic("symbolic only") }
-func verifURLStubProduced(v string) bool           { panic("symbolic only") }
-func verifSameObject(a, b interface{}) bool        { panic("symbolic only") }
+func nondetString(tag string) string                           { panic("symbolic only") }
+func nondetBool(tag string) bool                               { panic("symbolic only") }
+func nondetInt(tag string) int                                 { panic("symbolic only") }
+func nondetIntRange(tag string, lo, hi int) int                { panic("symbolic only") }
+func nondetRegexp(tag string) *regexp.Regexp                   { panic("symbolic only") }
+func nondetPred(tag string) func(string) bool                  { panic("symbolic only") }
+func nondetURLPred(tag string) func(*url.URL) bool             { panic("symbolic only") }
+func nondetRewriter(tag string) func(*url.URL)                 { panic("symbolic only") }
+func nondetError(tag string) error                             { panic("symbolic only") }
+func verifAssume(c bool)                                       { panic("symbolic only") }
+func verifAssert(c bool, id string)                            { panic("symbolic only") }
+func verifReach(id string)                                     { panic("symbolic only") }
+func verifCut(why string)                                      { panic("symbolic only") }
+func verifFreeze()                                             { panic("symbolic only") }
+func verifEffects() int                                        { panic("symbolic only") }
+func verifNote(key string, v string)                           { panic("symbolic only") }
+func verifNoteBool(key string, v bool)                         { panic("symbolic only") }
+func verifNoteInt(key string, v int)                           { panic("symbolic only") }
+func verifMatch(pattern string, s string) bool                 { panic("symbolic only") }
+func verifHasToken(v string, tok string) bool                  { panic("symbolic only") }
+func verifLower(s string) string                               { panic("symbolic only") }
+func verifURLOk(raw string) bool                               { panic("symbolic only") }
+func verifURLScheme(raw string) string                         { panic("symbolic only") }
+func verifURLHost(raw string) string                           { panic("symbolic only") }
+func verifURLNorm(raw string) string                           { panic("symbolic only") }
+func verifProvenance(s string) (html.Token, bool)              { panic("symbolic only") }
+func verifWrite(s string)                                      { panic("symbolic only") }
+func verifWriteFailed(s string)                                { panic("symbolic only") }
+func verifOr(a, b bool) bool                                   { panic("symbolic only") }
+func verifAnd(a, b bool) bool                                  { panic("symbolic only") }
+func verifImplies(a, b bool) bool                              { panic("symbolic only") }
+func verifCurrentToken() html.Token                            { panic("symbolic only") }
+func verifNot(a bool) bool                                     { panic("symbolic only") }
+func verifMatchPrefix(s, prefix string) bool                   { panic("symbolic only") }
+func verifAppended(s, prefix, piece string) bool               { panic("symbolic only") }
+func verifParam(tag string) int                                { panic("symbolic only") }
+func verifNoteURL(raw, out string, ok bool)                    { panic("symbolic only") }
+func verifURLStubCount() int                                   { panic("symbolic only") }
+func verifURLStubProduced(v string) bool                       { panic("symbolic only") }
+func verifRU(s string) string                                  { panic("symbolic only") }
+func verifJoinIf(acc string, c bool, piece, sep string) string { panic("symbolic only") }
+func verifCallCount(fn string) int                             { panic("symbolic only") }
+func verifSameObject(a, b interface{}) bool                    { panic("symbolic only") }
